@@ -225,7 +225,9 @@ VolumeMatches(e) ==
 \* ---------------------------------------------------------------------------
 \* Pair event: two arrays a law declares equal
 PairWF(e) ==
-  /\ e.law \in {"AffineEqualsIsoparametric", "SharedVsPerCell", "SubsetCommutes"}
+  \* SubsetConstructorAgrees: MappingAffine(mesh, tind=S) (Jacobians stored for the subset S only; its methods ignore
+  \* their own tind, as documented) delivers what the whole-mesh mapping delivers for tind = S
+  /\ e.law \in {"AffineEqualsIsoparametric", "SharedVsPerCell", "SubsetCommutes", "SubsetConstructorAgrees"}
   /\ (e.errA = "" /\ e.errB = "") => AllFx(e.A) /\ AllFx(e.B)
 PairHolds(e) ==
   /\ e.errA = "" /\ e.errB = ""
@@ -246,10 +248,35 @@ RefNormalsOutward(e) ==
      /\ \A a, b \in L : VDot(N, VSub(e.refv[a], e.refv[b])) = 0
      /\ \A v \in (DOMAIN e.refv) \ L : \A a \in L : VDot(N, VSub(e.refv[v], e.refv[a])) < 0
 
+\* ---------------------------------------------------------------------------
+\* SurfRel event: surface factor of triangular facets of strongly ANISOTROPIC tetrahedra, to working precision
+\* RELATIVE to the facet's own measure.  True coordinates are (p[1], p[2], p[3] / S) with small integers p and
+\* S = 2^17 (a layer of thickness 2^-17): the cross product of two facet edges is (c1 / S, c2 / S, c3) with the
+\* integer cross product c of the integer vectors.  Needle-shaped facets have c3 = 0; for them the harness logs
+\* detDG * S (an exact scaling, flag sc = 1) so that the comparison is made on numbers of size one.
+TolSurfRelBits == 30
+SurfRelWF(e) ==
+  /\ e.kind = "tet" /\ e.S = 131072
+  /\ \A v \in DOMAIN e.p : Len(e.p[v]) = 3 /\ \A c \in 1..3 : e.p[v][c] \in -64..64
+  /\ Len(e.d) = Len(e.facets) /\ Len(e.sc) = Len(e.facets) /\ AllFx(e.d)
+  /\ \A f \in DOMAIN e.facets : /\ Len(e.facets[f]) = 3 /\ \A i \in 1..3 : e.facets[f][i] \in DOMAIN e.p
+                                 /\ e.sc[f] \in {0, 1}
+                                 /\ LET c == SimplexJacVec(FacetPts(e, f)) IN
+                                    /\ VDot(c, c) > 0 /\ (e.sc[f] = 1 <=> c[3] = 0)
+SurfaceFactorRelative(e) ==
+  \A f \in DOMAIN e.facets :
+     LET c    == SimplexJacVec(FacetPts(e, f))
+         side == c[1] * c[1] + c[2] * c[2]
+         want == IF e.sc[f] = 1 THEN FxInt(side)                                      \* (detDG * S)^2
+                 ELSE FxAdd(FxInt(c[3] * c[3]), FxDivSmall(FxDivSmall(FxDivSmall(FxDivSmall(FxInt(side), 65536), 2), 65536), 2))
+         tol  == FxAdd(FxDivSmall(FxDivSmall(want, 32768), 32768), FxUlp(64))          \* 2^-30 of the exact square
+     IN FxNear(FxSq(e.d[f]), want, tol)
+
 C10WellFormed(e) ==
-  /\ e.a \in {"Geom", "Div", "Pair", "RefDom"}
+  /\ e.a \in {"Geom", "Div", "Pair", "RefDom", "SurfRel"}
   /\ CASE e.a = "Geom" -> e.err = "" => GeomWF(e)
        [] e.a = "RefDom" -> e.err = "" => RefDomWF(e)
+       [] e.a = "SurfRel" -> e.err = "" => SurfRelWF(e)
        [] e.a = "Div"  -> e.err = "" => DivWF(e)
        [] e.a = "Pair" -> PairWF(e)
 
@@ -260,6 +287,7 @@ C10Clauses(e) ==
   ELSE [WellFormed |-> TRUE, NoUnexpectedError |-> TRUE] @@
        (IF e.a = "Geom" THEN GeomClauses(e)
         ELSE IF e.a = "RefDom" THEN [RefNormalsOutward |-> RefNormalsOutward(e)]
+        ELSE IF e.a = "SurfRel" THEN [SurfaceFactorRelative |-> SurfaceFactorRelative(e)]
         ELSE [DivergenceTheorem |-> DivergenceTheorem(e), CellwiseDivergence |-> CellwiseDivergence(e),
               VolumeMatches |-> VolumeMatches(e)])
 ==============================================================================
